@@ -179,7 +179,15 @@ def _job(job, emit):
                         pass
                 if not okp:
                     continue
-                for rep_ in range(job["reps"]):
+                # random fills, then boundary fills: all operands equal element-wise (ties of comparisons /
+                # selects), all zero, and neighbouring values (operand k = base + (k % 3) - 1)
+                n_num = sum(1 for a in wa.args if a.type.is_numeric())
+                modes = ["rand"] * job["reps"] + ([] if "div" in name else
+                                                  ["tie", "zero", "adj"] + [("tiepair", j) for j in range(n_num - 1)])
+                base = list(range(-7, 12))
+                rng.shuffle(base)
+                for mode_ in modes:
+                    nbuf = 0
                     side = {"ctl": [], "bufs": [], "cfg": []}
                     for a in wa.args:
                         if not a.type.is_numeric():
@@ -192,7 +200,17 @@ def _job(job, emit):
                             for s in sh:
                                 n *= s
                             prec = PREC[type(a.type.basetype()).__name__]
-                            side["bufs"].append({"cells": _values(rng, name, str(a.name), n, prec), "off": 0, "strides": []})
+                            if mode_ == "rand":
+                                cells = _values(rng, name, str(a.name), n, prec)
+                            else:
+                                seq = (base * (n // len(base) + 1))[:n]
+                                if isinstance(mode_, tuple):  # operands j and j+1 tie, all others differ
+                                    d = nbuf if nbuf <= mode_[1] else nbuf - 1
+                                else:
+                                    d = 0 if mode_ == "tie" else (nbuf % 3) - 1
+                                cells = [0 if mode_ == "zero" else (abs(v + d) if prec == "ui16" else v + d) for v in seq]
+                                nbuf += 1
+                            side["bufs"].append({"cells": cells, "off": 0, "strides": []})
                     sides.append(side)
             unit["inputs"] = [{"a": s} for s in sides]
             flags = ["-mavx2", "-mfma"] + (["-mavx512f"] if job["avx512"] else [])
